@@ -982,7 +982,7 @@ def C12(ck):
         ck.sample({'entropy_case': s})
     ck.cov['rule'] = ('KzEntropyFrame.tla (raw threshold, chunk loop, header carrying all frequencies but the first) model-checked: encoder and decoder '
                       'tables agree iff the scaled table sums to the scale (links C16 to C12); then the 9 real codecs over length classes '
-                      '{0,1,..,31,32,33,63,64,65,...,chunk-1,chunk,chunk+1,2*chunk+7} (chunk = 16 KiB / 32 KiB; 4 MiB in thorough) x data families (19 shapes, '
+                      '{0,1,..,31,32,33,63,64,65,...,chunk-1,chunk,chunk+1,2*chunk+7} and every residue chunk+0..40 of the internal chunk size (16 KiB / 32 KiB / 4 MiB) x data families (19 shapes, '
                       'alphabets of 1..256 symbols, r rare + d dominant symbols) x bit alignment of the block in the stream; a 64-bit sentinel follows '
                       'the block; Trace_Entropy.tla judges: decoded = original, bits read = bits written, sentinel intact. '
                       'non-trivial = distinct (codec, length, family, alignment) with length > 32')
